@@ -93,43 +93,36 @@ Section Exec.
 
   Definition succeeded (s : xstate) (o : nat) : bool := ostate_eqb (ost s o) SUCCEEDED.
 
-  (* one iteration of the loop inside _launch_ops_if_able (gate already known to be open) *)
-  Definition launch_one (s : xstate) : xstate :=
-    let '(o, rS, rP) :=
-        match readyP s with
-        | o :: rP => (o, readyS s, rP)
-        | [] => match readyS s with o :: rS => (o, rS, []) | [] => (0, [], []) end
-        end in
-    let rp := is_par o in
-    let s0 := {| readyS := rS; readyP := rP; syncs := syncs s; procs := procs s; avail := avail s;
-                 runpar := rp; completed := completed s; ost := ost s; waiting := waiting s;
-                 dequeued := S (dequeued s); waits := waits s; trace := trace s; stopped := stopped s |} in
-    if negb (forallb (succeeded s) (exe_deps p o)) then
-      process_finished
-        {| readyS := rS; readyP := rP; syncs := syncs s; procs := procs s; avail := avail s;
-           runpar := rp; completed := completed s; ost := upd (ost s) o SKIPPED; waiting := waiting s;
-           dequeued := S (dequeued s); waits := waits s; trace := ESkip o :: trace s; stopped := stopped s |} o
-    else
-      let slot := if rp && Nat.ltb 1 jobs then hd_error (avail s) else None in
-      if launch_fails orc o then
-        let s1 := process_finished
-          {| readyS := rS; readyP := rP; syncs := syncs s; procs := procs s; avail := avail s;
-             runpar := rp; completed := completed s; ost := upd (ost s) o FAILED; waiting := waiting s;
-             dequeued := S (dequeued s); waits := waits s; trace := ELaunchFail o :: trace s; stopped := stopped s |} o in
-        if stop then
-          {| readyS := readyS s1; readyP := readyP s1; syncs := syncs s1; procs := procs s1; avail := avail s1;
-             runpar := runpar s1; completed := completed s1; ost := ost s1; waiting := waiting s1;
-             dequeued := dequeued s1; waits := waits s1; trace := trace s1; stopped := true |}
-        else s1
-      else if op_sync (opi o) then
-        {| readyS := rS; readyP := rP; syncs := o :: syncs s; procs := procs s; avail := avail s;
-           runpar := rp; completed := completed s; ost := ost s; waiting := waiting s;
-           dequeued := S (dequeued s); waits := waits s; trace := EStart o slot :: trace s; stopped := stopped s |}
-      else
-        {| readyS := rS; readyP := rP; syncs := syncs s; procs := procs s ++ [(o, slot)];
-           avail := match slot with Some _ => tl (avail s) | None => avail s end;
-           runpar := rp; completed := completed s; ost := ost s; waiting := waiting s;
-           dequeued := S (dequeued s); waits := waits s; trace := EStart o slot :: trace s; stopped := stopped s |}.
+  (* ---- small state transformers (each is one group of assignments of the Python code) ---- *)
+  (* dequeue_next + `_running_parallel = next_op.parallelizable` + `_num_tasks_dequeued += 1` *)
+  Definition take (s : xstate) (rS rP : list nat) (rp : bool) : xstate :=
+    {| readyS := rS; readyP := rP; syncs := syncs s; procs := procs s; avail := avail s;
+       runpar := rp; completed := completed s; ost := ost s; waiting := waiting s;
+       dequeued := S (dequeued s); waits := waits s; trace := trace s; stopped := stopped s |}.
+  (* set_state + the observable event *)
+  Definition mark (s : xstate) (o : nat) (st : ostate) (ev : event) : xstate :=
+    {| readyS := readyS s; readyP := readyP s; syncs := syncs s; procs := procs s; avail := avail s;
+       runpar := runpar s; completed := completed s; ost := upd (ost s) o st; waiting := waiting s;
+       dequeued := dequeued s; waits := waits s; trace := ev :: trace s; stopped := stopped s |}.
+  Definition set_stopped (s : xstate) : xstate :=
+    {| readyS := readyS s; readyP := readyP s; syncs := syncs s; procs := procs s; avail := avail s;
+       runpar := runpar s; completed := completed s; ost := ost s; waiting := waiting s;
+       dequeued := dequeued s; waits := waits s; trace := trace s; stopped := true |}.
+  (* _inflight_ops.add_op for a synchronous / an asynchronous handle (+ `_available_slots.pop()`) *)
+  Definition start_sync (s : xstate) (o : nat) (slot : option nat) : xstate :=
+    {| readyS := readyS s; readyP := readyP s; syncs := o :: syncs s; procs := procs s; avail := avail s;
+       runpar := runpar s; completed := completed s; ost := ost s; waiting := waiting s;
+       dequeued := dequeued s; waits := waits s; trace := EStart o slot :: trace s; stopped := stopped s |}.
+  Definition start_proc (s : xstate) (o : nat) (slot : option nat) : xstate :=
+    {| readyS := readyS s; readyP := readyP s; syncs := syncs s; procs := procs s ++ [(o, slot)];
+       avail := match slot with Some _ => tl (avail s) | None => avail s end;
+       runpar := runpar s; completed := completed s; ost := ost s; waiting := waiting s;
+       dequeued := dequeued s; waits := waits s; trace := EStart o slot :: trace s; stopped := stopped s |}.
+  (* wait_for_next_op: pop the synchronous operation / remove the k-th process, return its slot *)
+  Definition pop_sync (s : xstate) (sy : list nat) : xstate :=
+    {| readyS := readyS s; readyP := readyP s; syncs := sy; procs := procs s; avail := avail s;
+       runpar := runpar s; completed := completed s; ost := ost s; waiting := waiting s;
+       dequeued := dequeued s; waits := waits s; trace := trace s; stopped := stopped s |}.
 
   Fixpoint remove_nth {A} (n : nat) (l : list A) : list A :=
     match l, n with
@@ -138,31 +131,45 @@ Section Exec.
     | x :: l', S k => x :: remove_nth k l'
     end.
 
+  Definition reap (s : xstate) (k : nat) (slot : option nat) : xstate :=
+    {| readyS := readyS s; readyP := readyP s; syncs := syncs s; procs := remove_nth k (procs s);
+       avail := match slot with Some sl => sl :: avail s | None => avail s end;
+       runpar := runpar s; completed := completed s; ost := ost s; waiting := waiting s;
+       dequeued := dequeued s; waits := S (waits s); trace := trace s; stopped := stopped s |}.
+
+  Definition dequeue (s : xstate) : nat * list nat * list nat :=
+    match readyP s with
+    | o :: rP => (o, readyS s, rP)
+    | [] => match readyS s with o :: rS => (o, rS, []) | [] => (0, [], []) end
+    end.
+
+  (* one iteration of the loop inside _launch_ops_if_able (gate already known to be open) *)
+  Definition launch_one (s : xstate) : xstate :=
+    let '(o, rS, rP) := dequeue s in
+    let s0 := take s rS rP (is_par o) in
+    if negb (forallb (succeeded s) (exe_deps p o)) then
+      process_finished (mark s0 o SKIPPED (ESkip o)) o
+    else
+      let slot := if is_par o && Nat.ltb 1 jobs then hd_error (avail s) else None in
+      if launch_fails orc o then
+        let s1 := process_finished (mark s0 o FAILED (ELaunchFail o)) o in
+        if stop then set_stopped s1 else s1
+      else if op_sync (opi o) then start_sync s0 o slot
+      else start_proc s0 o slot.
+
   (* _wait_for_next_inflight_op (precondition: something is in flight) *)
   Definition wait_one (s : xstate) : xstate :=
     match syncs s with
     | o :: sy =>
-      (* a synchronous operation: finish_execution does nothing and cannot fail; slot is None *)
-      process_finished
-        {| readyS := readyS s; readyP := readyP s; syncs := sy; procs := procs s; avail := avail s;
-           runpar := runpar s; completed := completed s; ost := upd (ost s) o SUCCEEDED; waiting := waiting s;
-           dequeued := dequeued s; waits := waits s; trace := EFinish o 0 :: trace s; stopped := stopped s |} o
+      (* a synchronous operation: finish_execution does nothing and cannot fail; its slot is None *)
+      process_finished (mark (pop_sync s sy) o SUCCEEDED (EFinish o 0)) o
     | [] =>
       let k := Nat.modulo (pick orc (waits s)) (length (procs s)) in
       let '(o, slot) := nth k (procs s) (0, None) in
       let rc := rc_of orc o in
       let ok := N.eqb rc 0 in
-      let s1 := process_finished
-        {| readyS := readyS s; readyP := readyP s; syncs := []; procs := remove_nth k (procs s);
-           avail := match slot with Some sl => sl :: avail s | None => avail s end;
-           runpar := runpar s; completed := completed s;
-           ost := upd (ost s) o (if ok then SUCCEEDED else FAILED); waiting := waiting s;
-           dequeued := dequeued s; waits := S (waits s); trace := EFinish o rc :: trace s; stopped := stopped s |} o in
-      if negb ok && stop then
-        {| readyS := readyS s1; readyP := readyP s1; syncs := syncs s1; procs := procs s1; avail := avail s1;
-           runpar := runpar s1; completed := completed s1; ost := ost s1; waiting := waiting s1;
-           dequeued := dequeued s1; waits := waits s1; trace := trace s1; stopped := true |}
-      else s1
+      let s1 := process_finished (mark (reap s k slot) o (if ok then SUCCEEDED else FAILED) (EFinish o rc)) o in
+      if negb ok && stop then set_stopped s1 else s1
     end.
 
   (* the main loop, flattened: one launch iteration if the gate is open, else one wait if
